@@ -8,7 +8,7 @@
 #include "verif_c.h"
 #include "constants.h"
 
-int g_remaining, g_consumed, g_calls, g_good, g_eof;
+int g_remaining, g_consumed, g_calls, g_good, g_eof, g_fail;
 char* gp_save; char* gp_host; int* gp_lineno;
 const char** gp_f1; const char** gp_f2; const char** gp_f3; const char** gp_f4; const char** gp_f5; _Bool* gp_isint;
 int g_lineno0, g_total;
@@ -33,32 +33,34 @@ int first_pos(int from, int kind)
 #define BIG (1 << 29)
 #define N_SECTIONS 9                       /* NAME .. ENDATA; the enum text is conformance-checked */
 
-int w_readline(int section, int lineno, int is_integer, int is_new_format, char* buf_out, int* off, int* end, int* lineno_out)
+int w_readline(int section, int lineno, int is_integer, int is_new_format, int* off, int* end, char* c0, int* lineno_out)
 __CPROVER_requires(0 <= section && section <= N_SECTIONS - 1)
 __CPROVER_requires(0 <= lineno && lineno <= BIG && g_lineno0 == lineno)
 __CPROVER_requires(0 <= g_remaining && g_remaining <= BIG && g_total == g_remaining && g_consumed == 0 && g_calls == 0)
-__CPROVER_requires(__CPROVER_is_fresh(buf_out, MAX_LINE_LEN) && __CPROVER_is_fresh(off, 6 * sizeof(int)) && __CPROVER_is_fresh(end, 6 * sizeof(int)))
+__CPROVER_requires(__CPROVER_is_fresh(off, 6 * sizeof(int)) && __CPROVER_is_fresh(end, 6 * sizeof(int)) && __CPROVER_is_fresh(c0, 6))
 __CPROVER_requires(__CPROVER_is_fresh(lineno_out, sizeof(int)))
 __CPROVER_requires(0 <= g_i && g_i < 6)
-__CPROVER_assigns(g_remaining, g_consumed, g_calls, g_good, g_eof, gp_save, gp_host, gp_lineno, gp_buf, gp_f1, gp_f2, gp_f3, gp_f4, gp_f5, gp_isint,
-                  __CPROVER_object_whole(buf_out), __CPROVER_object_whole(off), __CPROVER_object_whole(end), *lineno_out)
-/* every field: NULL, or inside the buffer with a terminator behind it inside the buffer */
-__CPROVER_ensures(__CPROVER_return_value ==> (off[g_i] == -1 || (0 <= off[g_i] && off[g_i] <= end[g_i] && end[g_i] <= MAX_LINE_LEN - 1 && buf_out[end[g_i]] == '\0')))
-/* fields are handed out left to right: a later field is never set without the earlier one (f0 and f1.. are alternatives) */
-__CPROVER_ensures((__CPROVER_return_value && g_i >= 2 && off[g_i] >= 0) ==> (off[g_i - 1] >= 0 && off[g_i - 1] < off[g_i]))
+__CPROVER_assigns(g_remaining, g_consumed, g_calls, g_good, g_eof, g_fail, gp_save, gp_host, gp_lineno, gp_buf, gp_f1, gp_f2, gp_f3, gp_f4, gp_f5, gp_isint,
+                  __CPROVER_object_whole(off), __CPROVER_object_whole(end), __CPROVER_object_whole(c0), *lineno_out)
+/* every field: NULL, or inside the buffer with a terminator behind it inside the buffer (the terminator's existence
+ * is the assertion of first_pos(), its position is end[i]) */
+__CPROVER_ensures(__CPROVER_return_value ==> (off[g_i] == -1 || (0 <= off[g_i] && off[g_i] < end[g_i] && end[g_i] <= MAX_LINE_LEN - 1)))
+/* fields are handed out left to right: a later field is never set without the earlier one (f0 and f2.. are alternatives) */
+__CPROVER_ensures((__CPROVER_return_value && g_i >= 2 && off[g_i] >= 0) ==> (off[g_i - 1] >= 0 && end[g_i - 1] < off[g_i]))
 __CPROVER_ensures((__CPROVER_return_value && off[0] >= 0) ==> (off[0] == 0 && off[2] == -1 && off[3] == -1 && off[4] == -1 && off[5] == -1))
+__CPROVER_ensures((__CPROVER_return_value && off[0] >= 0 && off[1] >= 0) ==> end[0] < off[1])
 /* a field is never empty and never starts with a blank */
-__CPROVER_ensures((__CPROVER_return_value && off[g_i] >= 0) ==> (buf_out[off[g_i]] != '\0' && buf_out[off[g_i]] != ' '))
-/* line counter == lines consumed; false only after a stream failure */
+__CPROVER_ensures((__CPROVER_return_value && off[g_i] >= 0) ==> (c0[g_i] != '\0' && c0[g_i] != ' '))
+/* line counter == number of getline() calls; false only after a stream failure */
 __CPROVER_ensures(*lineno_out == g_lineno0 + g_calls && g_consumed + g_remaining == g_total && g_calls >= 1)
 __CPROVER_ensures(!__CPROVER_return_value ==> (!g_good && !g_eof))
 ;
 
 void h_readline(void)
 {
-   int section, lineno, is_integer, is_new_format; char* buf_out; int* off; int* end; int* lineno_out;
-   g_remaining = nondet_int(); g_consumed = nondet_int(); g_calls = nondet_int(); g_good = nondet_int(); g_eof = nondet_int();
+   int section, lineno, is_integer, is_new_format; int* off; int* end; char* c0; int* lineno_out;
+   g_remaining = nondet_int(); g_consumed = nondet_int(); g_calls = nondet_int(); g_good = nondet_int(); g_eof = nondet_int(); g_fail = nondet_int();
    g_lineno0 = nondet_int(); g_total = nondet_int(); g_i = nondet_int();
-   w_readline(section, lineno, is_integer, is_new_format, buf_out, off, end, lineno_out);
+   w_readline(section, lineno, is_integer, is_new_format, off, end, c0, lineno_out);
    CANARY();
 }
